@@ -15,19 +15,20 @@ theorem strTable_ok : ∀ e ∈ strTable,
     walkKey e.1 = e.2.1 ∧ (e.2.1, e.2.2) ∈ stdSpellings ∧ e.2.2 ∈ opToks ∧ e.1 ≠ .arrayValue := by
   decide +kernel
 
-theorem map_snd_U (args : List Term) : (args.map U).map (·.2) = args.map tyD := by
+theorem map_snd_U (args : List Term) : (args.map (U srt)).map (·.2) = args.map tyD := by
   simp [U, Function.comp_def]
 
 section
-variable (sp : Spell) (hsp : SpellStd sp) (env : SEnv) (scope : List Sym) (hsc : ScopeOK scope)
+variable (sp : Spell) (hsp : SpellStd sp) (env : SEnv) (sc : List Binding) (hsc : ThFree sc) (srt : Bool)
+  (toS : Term → Sexp) (scope0 : List Sym)
 include hsp hsc
 
 theorem reads_str (op : Op) (hop : ∃ key name, (op, key, name) ∈ strTable) (p : Payload) (args : List Term) (τ : Ty)
-    (hargs : ∀ a ∈ args, Reads sp env scope a) (hty : (Term.node op args p).typeOf = some τ)
-    (hS : stdTy op p (args.map tyD) = some τ) : Reads sp env scope (.node op args p) := by
+    (hargs : ∀ a ∈ args, Reads env sc srt toS a) (hty : (Term.node op args p).typeOf = some τ)
+    (hS : stdTy op p (args.map tyD) = some τ) : NodeReads sp env sc srt toS op args p := by
   obtain ⟨key, name, he⟩ := hop
   have key2 : ∃ ptys, p = .none ∧ args.map tyD = ptys ∧ ptys ≠ [] ∧ strSig name = some (op, ptys, τ) ∧
-      (∀ as, nodeSexp sp true op .none args as = .list (.atom (sp (walkKey op)) :: as)) := by
+      (∀ as, nodeSexp sp srt op .none args as = .list (.atom (sp (walkKey op)) :: as)) := by
     simp only [strTable, List.mem_cons, Prod.mk.injEq, List.not_mem_nil, or_false] at he
     rcases he with ⟨rfl, _, rfl⟩ | ⟨rfl, _, rfl⟩ | ⟨rfl, _, rfl⟩ | ⟨rfl, _, rfl⟩ | ⟨rfl, _, rfl⟩ | ⟨rfl, _, rfl⟩
       | ⟨rfl, _, rfl⟩ | ⟨rfl, _, rfl⟩ <;>
@@ -41,15 +42,15 @@ theorem reads_str (op : Op) (hop : ∃ key name, (op, key, name) ∈ strTable) (
   obtain ⟨hk, hs, ht, hna⟩ := strTable_ok _ he
   simp only at hk hs ht hna
   have hne : args ≠ [] := by intro h; subst h; simp at hts; exact hpne hts
-  apply reads_simple sp env scope hsc op .none args name ht
+  apply reads_simple sp env sc hsc srt toS op .none args name ht
     (fun as => by rw [hsexp, hk, spell sp hsp key name hs])
-    (unfoldAV_plain _ _ _ hna) hargs hne _ hty
-  rw [ap_strSig name op ptys τ hsig _ (by rw [map_snd_U, hts]), map_fst_U]
+    (unfoldAV_plain srt _ _ _ hna) hargs hne _ hty
+  rw [ap_strSig name op ptys τ hsig _ (by rw [map_snd_U, hts]), map_fst_U srt]
 
 theorem reads_strConcat (p : Payload) (args : List Term) (τ : Ty)
-    (hargs : ∀ a ∈ args, Reads sp env scope a) (hty : (Term.node .strConcat args p).typeOf = some τ)
-    (hS : stdTy .strConcat p (args.map tyD) = some τ) (hok : nodeOK env scope .strConcat p args = true) :
-    Reads sp env scope (.node .strConcat args p) := by
+    (hargs : ∀ a ∈ args, Reads env sc srt toS a) (hty : (Term.node .strConcat args p).typeOf = some τ)
+    (hS : stdTy .strConcat p (args.map tyD) = some τ) (hok : nodeOK env scope0 .strConcat p args = true) :
+    NodeReads sp env sc srt toS .strConcat args p := by
   simp only [stdTy] at hS
   split at hS <;> simp at hS
   rename_i hc
@@ -58,10 +59,10 @@ theorem reads_strConcat (p : Payload) (args : List Term) (τ : Ty)
   subst hS
   simp only [nodeOK, decide_eq_true_eq] at hok
   have hne : args ≠ [] := by intro h; subst h; simp at hok
-  apply reads_simple sp env scope hsc .strConcat .none args "str.++" (by decide)
+  apply reads_simple sp env sc hsc srt toS .strConcat .none args "str.++" (by decide)
     (fun as => by simp [nodeSexp, walkKey, spell sp hsp "walk_str_concat" "str.++" (by decide)])
-    (unfoldAV_plain _ _ _ (by decide)) hargs hne _ hty
-  rw [ap_strConcat _ (by simpa using hok) (allTy_U hall), map_fst_U]
+    (unfoldAV_plain srt _ _ _ (by decide)) hargs hne _ hty
+  rw [ap_strConcat _ (by simpa using hok) (allTy_U hall), map_fst_U srt]
 
 end
 
